@@ -58,6 +58,9 @@ func HandWritten() []*Case {
 		withSub(mk("h21", "short-imported-package-name", "ph21", "type S struct{ V ab.T; W ab.N }\n", ""), "ab", "type T struct{ X int }\ntype N int\n"),
 		mk("h41", "typed-constants-of-a-standard-library-type", "ph41", "const DefaultTimeout time.Duration = 30 * time.Second\nconst MaxTimeout time.Duration = time.Minute\ntype Job struct {\n\tTimeout time.Duration\n\tName string\n}\n", ""),
 		mk("h42", "all-union-fields-ignored", "ph42", "type Payload interface{ isPayload() }\ntype Text struct{ Value string `json:\"value\"` }\nfunc (Text) isPayload() {}\ntype Number struct{ N int }\nfunc (Number) isPayload() {}\ntype Audit struct {\n\tId int\n\tPayload Payload `json:\"payload\" gomacro:\"ignore\"`\n}\ntype Mixed struct {\n\tA Payload `gomacro:\"ignore\"`\n\tB Payload\n}\ntype Event struct{ P Payload }\n", ""),
+		mk("h43", "null-struct-over-named-time", "ph43", "type MyDate time.Time\nfunc (d MyDate) MarshalJSON() ([]byte, error) { return time.Time(d).MarshalJSON() }\nfunc (d *MyDate) UnmarshalJSON(b []byte) error { return (*time.Time)(d).UnmarshalJSON(b) }\ntype Stamp time.Time\nfunc (d Stamp) MarshalJSON() ([]byte, error) { return time.Time(d).MarshalJSON() }\nfunc (d *Stamp) UnmarshalJSON(b []byte) error { return (*time.Time)(d).UnmarshalJSON(b) }\ntype OptDate struct {\n\tValid bool\n\tDate MyDate\n}\ntype OptStamp struct {\n\tStamp Stamp\n\tValid bool\n}\ntype T struct {\n\tId int64\n\tD OptDate\n\tS OptStamp\n}\n", ""),
+		mk("h44", "json-column-of-recursive-named-container", "ph44", "type Tree []Tree\ntype Dict map[string]Dict\ntype T struct {\n\tId int64\n\tTree Tree\n\tDict Dict\n}\n", ""),
+		mk("h45", "enum-constants-over-two-files-with-equal-values", "ph45", "type Color int\nconst (\n\tRed Color = iota\n\tGreen\n\tBlue\n)\ntype Paint struct {\n\tC Color\n\tL Level\n}\n", "const defaultColor = Green\nconst fallbackColor Color = Red\ntype Level uint8\nconst (\n\tLow Level = iota\n\tHigh\n)\nconst levelUnset Level = 255\nconst levelDefault = Low\n"+bigPadding()),
 		withSub(mk("h40", "embedded-non-struct-fields", "ph40", "type Kind int\nconst (\n\tPlain Kind = iota + 1\n\tFancy\n)\ntype Level string\nconst (\n\tLow Level = \"low\"\n\tHigh Level = \"high\"\n)\ntype Tags []string\ntype Shape struct {\n\tKind\n\tLevel\n\tTags\n\tName string\n\tAt geo.Point\n}\n", ""), "geo", "type Geometry interface{ isGeometry() }\ntype Point struct{ X, Y float64 }\nfunc (Point) isGeometry() {}\ntype Line struct{ A, B Point }\nfunc (Line) isGeometry() {}\n"),
 		withSub(mk("h38", "named-basic-first-reached-in-its-own-package", "ph38", "type Link struct {\n\tOwner own.Owner\n\tID own.ID\n}\n", ""), "own", "type ID int64\ntype Owner struct{ ID ID }\n"),
 		withSub(mk("h39", "named-basic-used-by-two-files", "ph39", "type A struct {\n\tK ids.Key\n\tL []ids.Key\n\tM map[ids.Key]ids.Name\n}\n", "type B struct {\n\tK ids.Key\n\tN ids.Name\n}\n"), "ids", "type Key int64\ntype Name string\ntype Holder struct {\n\tK Key\n\tN Name\n}\n"),
@@ -145,4 +148,26 @@ func ManyImports() []*Case {
 		out = append(out, c)
 	}
 	return out
+}
+
+// bigPadding: a few thousand unused declarations, so that the file holding them is parsed well after
+// (or before) its small sibling whatever the schedule of the loader's parser goroutines
+func bigPadding() string {
+	var b []byte
+	for i := 0; i < 2500; i++ {
+		b = append(b, []byte("func pad"+itoa(i)+"(a, b int, s []string) (int, string) { if a > b { return a - b, s[0] }; return b*a + "+itoa(i)+", \"x\" }\n")...)
+	}
+	return string(b)
+}
+
+func itoa(i int) string {
+	if i == 0 {
+		return "0"
+	}
+	var d []byte
+	for i > 0 {
+		d = append([]byte{byte('0' + i%10)}, d...)
+		i /= 10
+	}
+	return string(d)
 }
